@@ -503,6 +503,8 @@ func init() {
 			var vs []engine.Scenario
 			if tier == "thorough" {
 				vs = configVariants(scs, tier, "nil-state", "err500", "nomount")
+				vs = append(vs, configVariants(only(scs, "S4-2fa"), tier, "err500", "nil-state")...)
+				vs = append(vs, configVariants(only(scs, "S5-oauth2"), tier, "nomount", "nil-state")...)
 			} else {
 				// quick: one deployment variant each, on the scenario where it matters most
 				vs = append(vs, configVariants(from(scs, "S2-otp-remember"), tier, "nil-state")...)
